@@ -34,6 +34,14 @@ class Func:
     def params(self):
         return [a.arg for a in self.node.args.args]
 
+    @property
+    def is_static(self):
+        return any(isinstance(d, ast.Name) and d.id == 'staticmethod' for d in self.node.decorator_list)
+
+    @property
+    def is_classmethod(self):
+        return any(isinstance(d, ast.Name) and d.id == 'classmethod' for d in self.node.decorator_list)
+
     def __repr__(self):
         return '<Func %s>' % self.where
 
